@@ -194,63 +194,83 @@ theorem ent2_take (a : List (List K)) (n i j : Nat) :
   simp only [List.getD_eq_getElem?_getD, List.getElem?_take]
   split <;> simp
 
+theorem ent2_dropRow1 (t : List (List K)) (r l : Nat) : ent2 (dropRow1 t) r l = ent2 t (src r) l := by
+  match t with
+  | [] => simp [dropRow1, ent2_nil]
+  | [a] =>
+    cases r with
+    | zero => simp [dropRow1, src]
+    | succ k => simp [dropRow1, src, ent2_cons_succ, ent2_nil]
+  | a :: b :: t =>
+    cases r with
+    | zero => simp [dropRow1, src, ent2_cons_zero]
+    | succ k => simp [dropRow1, src, ent2_cons_succ]
+
+theorem dropRow1_length {α : Type} (t : List α) (h : 2 ≤ t.length) :
+    (dropRow1 t).length = t.length - 1 := by
+  match t, h with
+  | a :: b :: t, _ => simp [dropRow1]
+
+theorem mem_dropRow1 {α : Type} (t : List α) (a : α) (h : a ∈ dropRow1 t) : a ∈ t := by
+  match t with
+  | [] => simp [dropRow1] at h
+  | [b] => simpa [dropRow1] using h
+  | b :: c :: t =>
+    simp only [dropRow1, List.mem_cons] at h ⊢
+    rcases h with h | h
+    · exact Or.inl h
+    · exact Or.inr (Or.inr h)
+
 /-- entries of `unIota`: row `r` is row `src r` of the fast layout, cut to `L` columns and to the
  first `2M` rows -/
 theorem ent2_unIota (twoM L : Nat) (y : List (List K)) (r l : Nat) :
     ent2 (unIota twoM L y) r l = if l < L ∧ src r < twoM then ent2 y (src r) l else 0 := by
   unfold unIota
-  have key : ∀ t : List (List K), t = y.take twoM →
-      ent2 (match t with
-        | r0 :: _ :: rest => (r0 :: rest).map (List.take L)
-        | other => other.map (List.take L)) r l
-      = if l < L ∧ src r < twoM then ent2 y (src r) l else 0 := by
-    intro t ht
-    have hent : ∀ i j, ent2 t i j = if i < twoM then ent2 y i j else 0 := by
-      intro i j; rw [ht]; exact ent2_take y twoM i j
-    match t, hent with
-    | [], hent =>
-      simp only [List.map_nil, ent2_nil]
-      split
-      · rename_i h
-        have := hent (src r) l
-        rw [if_pos h.2, ent2_nil] at this
-        exact this
-      · rfl
-    | [a], hent =>
-      rw [ent2_map_take]
-      by_cases hl : l < L
-      · simp only [hl, true_and, if_true]
-        cases r with
-        | zero =>
-          have := hent 0 l
-          simp only [src, if_true] at this ⊢
-          exact this
-        | succ k =>
-          have h1 : ent2 [a] (k + 1) l = 0 := by simp [ent2_cons_succ, ent2_nil]
-          have := hent (src (k + 1)) l
-          simp only [src, Nat.add_eq_zero_iff, one_ne_zero, and_false, if_false] at this ⊢
-          rw [ent2_cons_succ, ent2_nil] at this
-          rw [h1]
-          exact this
-      · simp [hl]
-    | a :: b :: rest, hent =>
-      rw [ent2_map_take]
-      by_cases hl : l < L
-      · simp only [hl, true_and, if_true]
-        cases r with
-        | zero =>
-          have := hent 0 l
-          simp only [src, if_true] at this ⊢
-          rw [ent2_cons_zero] at this ⊢
-          exact this
-        | succ k =>
-          have := hent (src (k + 1)) l
-          simp only [src, Nat.add_eq_zero_iff, one_ne_zero, and_false, if_false] at this ⊢
-          rw [ent2_cons_succ, ent2_cons_succ] at this
-          rw [ent2_cons_succ]
-          exact this
-      · simp [hl]
-  exact key _ rfl
+  rw [ent2_map_take, ent2_dropRow1, ent2_take]
+  by_cases h1 : l < L <;> by_cases h2 : src r < twoM <;> simp [h1, h2]
+
+omit [CommRing K] in
+theorem unIota_length {α : Type} (twoM L : Nat) (y : List (List α)) (h2 : 2 ≤ twoM) (hy : twoM ≤ y.length) :
+    (unIota twoM L y).length = twoM - 1 := by
+  unfold unIota
+  rw [List.length_map, dropRow1_length _ (by rw [List.length_take]; omega), List.length_take]
+  omega
+
+omit [CommRing K] in
+theorem unIota_rows {α : Type} (twoM L : Nat) (y : List (List α)) (hy : ∀ r ∈ y, L ≤ r.length) :
+    ∀ r ∈ unIota twoM L y, r.length = L := by
+  intro r hr
+  simp only [unIota, List.mem_map] at hr
+  obtain ⟨a, ha, rfl⟩ := hr
+  have := hy a (List.mem_of_mem_take (mem_dropRow1 _ _ ha))
+  simp [this]
+
+/-- `unIota` inverts `iota` on arrays of the real shape -/
+theorem unIota_iota (M L pr pc : Nat) (hM : 1 ≤ M) (x : List (List K)) (hxl : x.length = 2 * M - 1)
+    (hx : ∀ r ∈ x, r.length = L) : unIota (2 * M) L (iota L pr pc x) = x := by
+  have hne : x ≠ [] := by intro h; rw [h] at hxl; simp at hxl; omega
+  by_cases hM1 : M = 1
+  · -- a single row: `unIota 2 L [pad r0, zeros, …] = [r0]`
+    subst hM1
+    match x, hxl with
+    | [r0], _ =>
+      have h0 : r0.length = L := hx r0 (List.mem_cons_self ..)
+      simp [iota, unIota, dropRow1, padRight, h0]
+  apply ext_ent2 _ _ L
+  · rw [unIota_length _ _ _ (by omega) (by rw [iota_length _ _ _ _ hne]; omega), hxl]
+  · apply unIota_rows
+    intro r hr
+    rw [iota_rows L pr pc x hx r hr]; omega
+  · exact hx
+  intro r l
+  rw [ent2_unIota]
+  split
+  · exact ent2_iota_src L pr pc x r l
+  · rename_i h
+    by_cases hl : l < L
+    · have : ¬ src r < 2 * M := fun h' => h ⟨hl, h'⟩
+      rw [ent2_of_length_le x r l (by rw [hxl]; unfold src at this; split at this <;> omega)]
+    · rw [ent2_of_width_le x L r l (fun r hr => le_of_eq (hx r hr)) (by omega)]
 
 /-! ### `padNodal` -/
 
@@ -563,5 +583,433 @@ theorem realAnalysis_rows (b : Basis K) (N R J L : Nat) (hb : Shaped b N R J L) 
     (z : List (List K)) : ∀ r ∈ realAnalysis b R' J L z, r.length = L := by
   intro r hr
   exact fwdLegendre_rows _ _ L hb.pll r hr
+
+/-! ### the two `basis` constructions -/
+
+theorem getElem?_dup {α : Type} (l : List α) (k : Nat) : (dup l)[k]? = l[k / 2]? := by
+  induction l generalizing k with
+  | nil => simp [dup]
+  | cons a t ih =>
+    match k with
+    | 0 => simp [dup]
+    | 1 => simp [dup]
+    | k + 2 =>
+      have : (k + 2) / 2 = k / 2 + 1 := by omega
+      simp [dup, ih k, this]
+
+theorem ent3_eq_ent2 (a : List (List (List K))) (i j k : Nat) :
+    ent3 a i j k = ent2 (a.getD i []) j k := rfl
+
+/-- `np.repeat(p, 2, axis=0)[1:]`: row `r` is `P[(r+1)/2]` -/
+theorem ent3_realBasisOf (f : List (List K)) (P : List (List (List K))) (w : List K) (r j l : Nat) :
+    ent3 (realBasisOf f P w).p r j l = ent3 P ((r + 1) / 2) j l := by
+  simp [realBasisOf, ent3, List.getD_eq_getElem?_getD, List.getElem?_tail, getElem?_dup]
+
+/-- the three `np.pad` calls leave the entries of `P` in place and add zeros -/
+theorem ent3_fastBasisOf (fz : List (List K)) (P : List (List (List K))) (w : List K)
+    (pn pr pj pc twoM J L m j l : Nat) :
+    ent3 (fastBasisOf fz P w pn pr pj pc twoM J L).p m j l = ent3 P m j l := by
+  unfold fastBasisOf
+  simp only [ent3_eq_ent2, List.getD_eq_getElem?_getD]
+  rcases Nat.lt_or_ge m P.length with hm | hm
+  · rw [List.getElem?_append_left (by simpa using hm), List.getElem?_map,
+      List.getElem?_eq_getElem hm]
+    exact ent2_padNodal pj pc L P[m] j l
+  · rw [List.getElem?_append_right (by simpa using hm), List.getElem?_eq_none hm,
+      List.getElem?_replicate]
+    split
+    · simp only [Option.getD_some, Option.getD_none, ent2_nil]
+      exact ent2_replicate_zeros _ _ _ _
+    · simp [ent2_nil]
+
+theorem ent2_fastBasisOf_f (fz : List (List K)) (P : List (List (List K))) (w : List K)
+    (pn pr pj pc twoM J L i c : Nat) :
+    ent2 (fastBasisOf fz P w pn pr pj pc twoM J L).f i c = ent2 fz i c :=
+  ent2_padNodal pn pr twoM fz i c
+
+theorem ent_fastBasisOf_w (fz : List (List K)) (P : List (List (List K))) (w : List K)
+    (pn pr pj pc twoM J L j : Nat) :
+    ent (fastBasisOf fz P w pn pr pj pc twoM J L).w j = ent w j := ent_padRight pj w j
+
+theorem ent3_of_shape (P : List (List (List K))) (J L m j l : Nat) (hPj : ∀ pm ∈ P, pm.length = J)
+    (hPl : ∀ pm ∈ P, ∀ pj ∈ pm, pj.length = L) (h : J ≤ j ∨ L ≤ l) : ent3 P m j l = 0 := by
+  rw [ent3_eq_ent2]
+  rcases Nat.lt_or_ge m P.length with hm | hm
+  · rw [getD_eq_getElem_nil P m hm]
+    rcases h with h | h
+    · exact ent2_of_length_le _ _ _ (by rw [hPj _ (List.getElem_mem hm)]; exact h)
+    · exact ent2_of_width_le _ L _ _ (fun r hr => le_of_eq (hPl _ (List.getElem_mem hm) r hr)) h
+  · rw [getD_nil_of_le P m hm]; exact ent2_nil _ _
+
+omit [CommRing K] in
+theorem realBasisOf_shaped (f : List (List K)) (P : List (List (List K))) (w : List K)
+    (M N J L : Nat) (hf : f.length = N) (hP : P.length = M)
+    (hPj : ∀ pm ∈ P, pm.length = J) (hPl : ∀ pm ∈ P, ∀ pj ∈ pm, pj.length = L) (hw : w.length = J) :
+    Shaped (realBasisOf f P w) N (2 * M - 1) J L := by
+  have dup_len : ∀ (l : List (List (List K))), (dup l).length = 2 * l.length := by
+    intro l; induction l with
+    | nil => rfl
+    | cons a t ih => simp [dup, ih]; omega
+  have mem_dup : ∀ (l : List (List (List K))) a, a ∈ dup l → a ∈ l := by
+    intro l; induction l with
+    | nil => intro a h; simp [dup] at h
+    | cons b t ih =>
+      intro a h
+      simp only [dup, List.mem_cons] at h ⊢
+      rcases h with h | h | h
+      · exact Or.inl h
+      · exact Or.inl h
+      · exact Or.inr (ih a h)
+  refine ⟨hf, ?_, ?_, ?_, hw⟩
+  · simp [realBasisOf, dup_len, hP]
+  · intro pm hpm
+    exact hPj pm (mem_dup _ _ (List.mem_of_mem_tail hpm))
+  · intro pm hpm
+    exact hPl pm (mem_dup _ _ (List.mem_of_mem_tail hpm))
+
+theorem fastBasisOf_shaped (fz : List (List K)) (P : List (List (List K))) (w : List K)
+    (M N J L pn pr pj pc : Nat) (hf : fz.length = N) (hP : P.length = M)
+    (hPj : ∀ pm ∈ P, pm.length = J) (hPl : ∀ pm ∈ P, ∀ pj ∈ pm, pj.length = L) (hw : w.length = J) :
+    Shaped (fastBasisOf fz P w pn pr pj pc (2 * M) J L) (N + pn) (M + pr / 2) (J + pj) (L + pc) := by
+  refine ⟨by simp [fastBasisOf, hf], by simp [fastBasisOf, hP], ?_, ?_, by simp [fastBasisOf, hw]⟩
+  · intro pm hpm
+    simp only [fastBasisOf, List.mem_append, List.mem_map, List.mem_replicate] at hpm
+    rcases hpm with ⟨a, ha, rfl⟩ | ⟨_, rfl⟩
+    · simp [hPj a ha]
+    · simp
+  · intro pm hpm pj' hpj'
+    simp only [fastBasisOf, List.mem_append, List.mem_map, List.mem_replicate] at hpm
+    rcases hpm with ⟨a, ha, rfl⟩ | ⟨_, rfl⟩
+    · simp only [List.mem_append, List.mem_map, List.mem_replicate] at hpj'
+      rcases hpj' with ⟨b, hb, rfl⟩ | ⟨_, rfl⟩
+      · simp [hPl a ha b hb]
+      · simp
+    · simp only [List.mem_replicate] at hpj'
+      rw [hpj'.2]; simp
+
+/-! ### index-wise operations -/
+
+/-- `x * v` along the last axis, entrywise (both sides read `0` outside) -/
+theorem ent2_mulLast (x : List (List K)) (v : List K) (i j : Nat) :
+    ent2 (mulLast x v) i j = ent2 x i j * ent v j := by
+  unfold mulLast ent2
+  simp only [List.getD_eq_getElem?_getD, List.getElem?_map]
+  cases x[i]? with
+  | none => simp [ent]
+  | some r => simpa [ent] using ent_zipWith_mul r v j
+
+theorem mulLast_length (x : List (List K)) (v : List K) : (mulLast x v).length = x.length := by
+  simp [mulLast]
+
+theorem mulLast_rows (x : List (List K)) (v : List K) (n : Nat) (hx : ∀ r ∈ x, r.length = n)
+    (hv : v.length = n) : ∀ r ∈ mulLast x v, r.length = n := by
+  intro r hr
+  simp only [mulLast, List.mem_map] at hr
+  obtain ⟨a, ha, rfl⟩ := hr
+  simp [hx a ha, hv]
+
+/-- multiplication along the last axis commutes with `ι` as soon as the two factor vectors agree on
+ the unpadded columns -/
+theorem mulLast_iota (L pr pc : Nat) (x : List (List K)) (vR vF : List K)
+    (hx : ∀ r ∈ x, r.length = L) (hvR : vR.length = L) (hvF : vF.length = L + pc)
+    (hv : ∀ j, j < L → ent vF j = ent vR j) :
+    mulLast (iota L pr pc x) vF = iota L pr pc (mulLast x vR) := by
+  by_cases hne : x = []
+  · subst hne; simp [iota, mulLast]
+  apply ext_ent2 _ _ (L + pc)
+  · rw [mulLast_length, iota_length _ _ _ _ hne,
+      iota_length _ _ _ _ (by intro h; apply hne; simpa [mulLast] using h), mulLast_length]
+  · exact mulLast_rows _ _ _ (iota_rows L pr pc x hx) hvF
+  · exact iota_rows L pr pc _ (mulLast_rows _ _ _ hx hvR)
+  intro r l
+  rw [ent2_mulLast, ent2_iota, ent2_iota]
+  split
+  · ring
+  · rw [ent2_mulLast]
+    by_cases hl : l < L
+    · rw [hv l hl]
+    · rw [ent2_of_width_le x L _ l (fun r hr => le_of_eq (hx r hr)) (by omega)]; ring
+
+/-! ### longitude derivative, entrywise -/
+
+theorem ent_getD_zeros (x : List (List K)) (k w l : Nat) :
+    ent (x.getD k (zerosN w)) l = ent2 x k l := by
+  unfold ent2
+  simp only [List.getD_eq_getElem?_getD]
+  cases x[k]? with
+  | none => simp [ent_zerosN]
+  | some r => simp [ent]
+
+theorem ent_map_neg (v : List K) (l : Nat) : ent (v.map fun a => -a) l = -ent v l := by
+  unfold ent
+  simp only [List.getD_eq_getElem?_getD, List.getElem?_map]
+  cases v[l]? <;> simp
+
+theorem ent2_range_map (n : Nat) (F : Nat → List K) (i l : Nat) :
+    ent2 ((List.range n).map F) i l = if i < n then ent (F i) l else 0 := by
+  unfold ent2
+  simp only [List.getD_eq_getElem?_getD, List.getElem?_map]
+  split
+  · rename_i h; simp [List.getElem?_range h, ent]
+  · rename_i h; simp [List.getElem?_eq_none (show (List.range n).length ≤ i by simpa using Nat.le_of_not_lt h)]
+
+/-- `real_basis_derivative`, entrywise -/
+theorem ent2_realDerivative (x : List (List K)) (w i l : Nat) :
+    ent2 (Fourier.realDerivative x w) i l
+      = if i < x.length then
+          (if i % 2 = 1 then (((i + 1) / 2 : Nat) : K) * ent2 x (i + 1) l
+           else if i = 0 then 0 else (((i + 1) / 2 : Nat) : K) * -ent2 x (i - 1) l)
+        else 0 := by
+  unfold Fourier.realDerivative
+  rw [ent2_range_map]
+  split
+  · split
+    · rw [ent_scale, ent_getD_zeros]
+    · split
+      · rw [ent_scale, ent_zerosN]; ring
+      · rw [ent_scale, ent_map_neg, ent_getD_zeros]
+  · rfl
+
+/-- `real_basis_derivative_with_zero_imag`, entrywise -/
+theorem ent2_zeroImagDerivative (y : List (List K)) (w off i l : Nat) :
+    ent2 (Fourier.zeroImagDerivative y w off) i l
+      = if i < y.length then
+          (if (i + 1) % 2 = 1 then ((off + i / 2 : Nat) : K) * ent2 y (i + 1) l
+           else ((off + i / 2 : Nat) : K) * -ent2 y (i - 1) l)
+        else 0 := by
+  unfold Fourier.zeroImagDerivative
+  rw [ent2_range_map]
+  split
+  · split
+    · rw [ent_scale, ent_getD_zeros]
+    · rw [ent_scale, ent_map_neg, ent_getD_zeros]
+  · rfl
+
+theorem derivative_rows (x : List (List K)) (w : Nat) (hx : ∀ r ∈ x, r.length = w) :
+    (∀ r ∈ Fourier.realDerivative x w, r.length = w) ∧
+    (∀ off, ∀ r ∈ Fourier.zeroImagDerivative x w off, r.length = w) := by
+  have hg : ∀ k : Nat, (x[k]?.getD (zerosN w)).length = w := by
+    intro k
+    rcases Nat.lt_or_ge k x.length with hk | hk
+    · simp [List.getElem?_eq_getElem hk, hx _ (List.getElem_mem hk)]
+    · simp [List.getElem?_eq_none hk]
+  constructor
+  · intro r hr
+    simp only [Fourier.realDerivative, List.mem_map, List.mem_range] at hr
+    obtain ⟨i, _, rfl⟩ := hr
+    split
+    · simp [scale, hg]
+    · split <;> simp [scale, hg]
+  · intro off r hr
+    simp only [Fourier.zeroImagDerivative, List.mem_map, List.mem_range] at hr
+    obtain ⟨i, _, rfl⟩ := hr
+    split <;> simp [scale, hg]
+
+end Dino.SHEquiv
+
+namespace Dino.SHEquiv
+open Finset Dino.Lin Dino.SH Dino.Fourier
+
+/-! ### the two Fourier matrices (fields: the code divides by `√π`) -/
+section field
+variable {F : Type} [Field F]
+
+theorem pairs_length (cs sn : Nat → F) (sp : F) (M N i : Nat) :
+    (pairs cs sn sp M N i).length = 2 * (M - 1) := by
+  unfold pairs
+  have : ∀ l : List Nat, (l.flatMap fun jm =>
+      [cs ((i * (jm + 1)) % N) / sp, sn ((i * (jm + 1)) % N) / sp]).length = 2 * l.length := by
+    intro l
+    induction l with
+    | nil => simp
+    | cons a t ih => simp only [List.flatMap_cons, List.length_append, ih]; simp; omega
+  rw [this]; simp
+
+/-- `real_basis_with_zero_imag` is `real_basis` with a zero column inserted at index 1 -/
+theorem zeroImag_src (cs sn : Nat → F) (s2p sp : F) (M N i r : Nat) :
+    ent2 (realBasisZeroImag cs sn s2p sp M N) i (src r) = ent2 (realBasis cs sn s2p sp M N) i r := by
+  unfold realBasisZeroImag realBasis
+  rw [ent2_range_map, ent2_range_map]
+  split
+  · cases r with
+    | zero => simp [src]
+    | succ k => simp [src]
+  · rfl
+
+theorem zeroImag_one (cs sn : Nat → F) (s2p sp : F) (M N i : Nat) :
+    ent2 (realBasisZeroImag cs sn s2p sp M N) i 1 = 0 := by
+  unfold realBasisZeroImag
+  rw [ent2_range_map]
+  split <;> simp
+
+theorem zeroImag_tail (cs sn : Nat → F) (s2p sp : F) (M N i c : Nat) (hM : 1 ≤ M) (hc : 2 * M ≤ c) :
+    ent2 (realBasisZeroImag cs sn s2p sp M N) i c = 0 := by
+  unfold realBasisZeroImag
+  rw [ent2_range_map]
+  split
+  · apply ent_of_length_le
+    simp only [List.length_cons, pairs_length]; omega
+  · rfl
+
+theorem realBasis_length (cs sn : Nat → F) (s2p sp : F) (M N : Nat) :
+    (realBasis cs sn s2p sp M N).length = N ∧ (realBasisZeroImag cs sn s2p sp M N).length = N := by
+  simp [realBasis, realBasisZeroImag]
+
+end field
+end Dino.SHEquiv
+
+/-! ### stacked contraction and reversed operand order -/
+namespace Dino.SHEquiv
+open Finset Dino.Lin Dino.SH
+variable {K : Type} [CommRing K]
+
+theorem ent2_zipWith_vadd (A B : List (List K)) (n : Nat) (hl : A.length = B.length)
+    (hA : ∀ r ∈ A, r.length = n) (hB : ∀ r ∈ B, r.length = n) (i j : Nat) :
+    ent2 (List.zipWith vadd A B) i j = ent2 A i j + ent2 B i j := by
+  unfold ent2
+  simp only [List.getD_eq_getElem?_getD, List.getElem?_zipWith]
+  rcases Nat.lt_or_ge i A.length with hi | hi
+  · have hi' : i < B.length := by omega
+    rw [List.getElem?_eq_getElem hi, List.getElem?_eq_getElem hi']
+    simp only [Option.getD_some]
+    have := ent_vadd A[i] B[i] j (by rw [hA _ (List.getElem_mem hi), hB _ (List.getElem_mem hi')])
+    simpa [ent] using this
+  · have hi' : B.length ≤ i := by omega
+    simp [List.getElem?_eq_none hi, List.getElem?_eq_none hi']
+
+theorem zipWith_vadd_rows (A B : List (List K)) (n : Nat)
+    (hA : ∀ r ∈ A, r.length = n) (hB : ∀ r ∈ B, r.length = n) :
+    ∀ r ∈ List.zipWith vadd A B, r.length = n := by
+  intro r hr
+  rw [List.mem_iff_getElem] at hr
+  obtain ⟨i, hi, rfl⟩ := hr
+  simp only [List.length_zipWith] at hi
+  simp only [List.getElem_zipWith, vadd, List.length_zipWith]
+  rw [hA _ (List.getElem_mem _), hB _ (List.getElem_mem _)]; simp
+
+theorem matMul_rows (f b : List (List K)) (n : Nat) (hb : ∀ r ∈ b, r.length = n) :
+    ∀ r ∈ matMul f b n, r.length = n := by
+  intro r hr
+  simp only [matMul, List.mem_map] at hr
+  obtain ⟨fi, _, rfl⟩ := hr
+  exact vecMat_length _ _ _ hb
+
+/-- the stacked Fourier contraction `'ism,smj->ij'` against the de-interleaved columns of `f` is the
+ plain contraction against the interleaved rows -/
+theorem stacked_matMul (f a b : List (List K)) (J : Nat) (hab : a.length = b.length)
+    (ha : ∀ r ∈ a, r.length = J) (hb : ∀ r ∈ b, r.length = J) :
+    List.zipWith vadd (matMul (f.map evens) a J) (matMul (f.map odds) b J)
+      = matMul f (stackM a b) J := by
+  have hs : ∀ r ∈ stackM a b, r.length = J := by
+    intro r hr
+    rcases mem_stackM _ _ _ hr with h | h
+    · exact ha r h
+    · exact hb r h
+  apply ext_ent2 _ _ J
+  · simp [matMul]
+  · exact zipWith_vadd_rows _ _ J (matMul_rows _ _ J ha) (matMul_rows _ _ J hb)
+  · exact matMul_rows _ _ J hs
+  intro i j
+  rw [ent2_zipWith_vadd _ _ J (by simp [matMul]) (matMul_rows _ _ J ha) (matMul_rows _ _ J hb),
+    ent2_matMul _ _ J i j a.length ha (le_refl _),
+    ent2_matMul _ _ J i j a.length hb (by omega),
+    ent2_matMul _ _ J i j (2 * a.length) hs (by rw [stackM_length _ _ hab]),
+    sum_range_two_mul, ← Finset.sum_add_distrib]
+  apply Finset.sum_congr rfl
+  intro m _
+  rw [ent2_map_evens, ent2_map_odds, ent2_stackM _ _ hab, ent2_stackM _ _ hab,
+    if_pos (by omega), if_neg (by omega)]
+  have h1 : 2 * m / 2 = m := by omega
+  have h2 : (2 * m + 1) / 2 = m := by omega
+  rw [h1, h2]
+
+omit [CommRing K] in
+theorem evens_range_map {α : Type} (g : Nat → α) (h : Nat) :
+    evens ((List.range (2 * h)).map g) = (List.range h).map fun m => g (2 * m) := by
+  apply List.ext_getElem?
+  intro m
+  rw [getElem?_evens, List.getElem?_map, List.getElem?_map]
+  rcases Nat.lt_or_ge m h with hm | hm
+  · rw [List.getElem?_range (by omega), List.getElem?_range hm]; rfl
+  · rw [List.getElem?_eq_none (by simp; omega), List.getElem?_eq_none (by simpa using hm)]; rfl
+
+omit [CommRing K] in
+theorem odds_range_map {α : Type} (g : Nat → α) (h : Nat) :
+    odds ((List.range (2 * h)).map g) = (List.range h).map fun m => g (2 * m + 1) := by
+  apply List.ext_getElem?
+  intro m
+  rw [getElem?_odds, List.getElem?_map, List.getElem?_map]
+  rcases Nat.lt_or_ge m h with hm | hm
+  · rw [List.getElem?_range (by omega), List.getElem?_range hm]; rfl
+  · rw [List.getElem?_eq_none (by simp; omega), List.getElem?_eq_none (by simpa using hm)]; rfl
+
+theorem col_map_evens (f : List (List K)) (m : Nat) : col (f.map evens) m = col f (2 * m) := by
+  unfold col
+  rw [List.map_map]
+  apply List.map_congr_left
+  intro row _
+  simp [List.getD_eq_getElem?_getD, getElem?_evens]
+
+theorem col_map_odds (f : List (List K)) (m : Nat) : col (f.map odds) m = col f (2 * m + 1) := by
+  unfold col
+  rw [List.map_map]
+  apply List.map_congr_left
+  intro row _
+  simp [List.getD_eq_getElem?_getD, getElem?_odds]
+
+/-- forward Fourier step: de-interleaving the result = contracting with the de-interleaved `f` -/
+theorem fwdFourier_evens_odds (f wx : List (List K)) (h J : Nat) :
+    evens (fwdFourier f wx (2 * h) J) = fwdFourier (f.map evens) wx h J ∧
+    odds (fwdFourier f wx (2 * h) J) = fwdFourier (f.map odds) wx h J := by
+  unfold fwdFourier transposeM
+  simp only [List.map_map]
+  constructor
+  · rw [evens_range_map]
+    apply List.map_congr_left
+    intro m _
+    simp [col_map_evens]
+  · rw [odds_range_map]
+    apply List.map_congr_left
+    intro m _
+    simp [col_map_odds]
+
+/-! reversed operand order -/
+
+theorem scaleR_eq (c : K) (v : List K) : scaleR c v = scale c v := by
+  simp [scaleR, scale, mul_comm]
+
+theorem vecMatR_eq (c : List K) (rows : List (List K)) (n : Nat) : vecMatR c rows n = vecMat c rows n := by
+  induction c generalizing rows with
+  | nil => simp [vecMatR, vecMat]
+  | cons a t ih =>
+    cases rows with
+    | nil => simp [vecMatR, vecMat]
+    | cons r rs => simp [vecMatR, vecMat, scaleR_eq, ih]
+
+theorem matMulR_eq : @matMulR K _ _ _ = @matMul K _ _ _ := by
+  funext a b n
+  simp [matMulR, matMul, vecMatR_eq]
+
+theorem dotv_comm (a b : List K) : dotv a b = dotv b a := by
+  unfold dotv
+  congr 1
+  induction a generalizing b with
+  | nil => cases b <;> simp
+  | cons x t ih =>
+    cases b with
+    | nil => simp
+    | cons y u => simp [ih u, mul_comm]
+
+theorem invLegendreR_eq : @invLegendreR K _ _ _ = @invLegendre K _ _ _ := by
+  funext p x
+  simp [invLegendreR, invLegendre, dotv_comm]
+
+theorem fwdFourierR_eq : @fwdFourierR K _ _ _ = @fwdFourier K _ _ _ := by
+  funext f wx nrows nlat
+  simp [fwdFourierR, fwdFourier, vecMatR_eq]
+
+theorem fwdLegendreR_eq : @fwdLegendreR K _ _ _ = @fwdLegendre K _ _ _ := by
+  funext p v nl
+  simp [fwdLegendreR, fwdLegendre, vecMatR_eq]
 
 end Dino.SHEquiv
